@@ -203,7 +203,7 @@ fn all_dialects(rel: &Relation, relations: &Hierarchy<Arc<Relation>>, origin: &s
 fn special_catalog(r: &mut Rng) -> Catalog {
     let tnames = ["order", "my table", "Mixed Case", "select", "t.dot", "quo\"te", "user"];
     let cnames = ["group", "my col", "from", "a.b", "Upper", "x\"y", "select", "key", "table"];
-    let mut cat = Catalog { tables: vec![] };
+    let mut cat = Catalog { tables: vec![], rel_prefix: String::new() };
     let mut tn = tnames.to_vec();
     r.shuffle(&mut tn);
     for t in tn.into_iter().take(2) {
